@@ -50,6 +50,15 @@ func c04Check(r *core.Run, s string, family string) *core.Violation {
 	if c.CompObs.Kind == "panic" {
 		return mk("panic", "a verdict", c.CompObs.Short(), "null")
 	}
+	// the verdict on a text does not change when it is asked for again: Compile twice more, MustCompile once
+	for k := 0; k < 2; k++ {
+		if _, again := core.Compile(s); again.Key() != c.CompObs.Key() {
+			return mk("verdict-changes-on-repetition", "the first verdict: "+c.CompObs.Short(), again.Short(), "null")
+		}
+	}
+	if _, panicked, _ := core.MustCompile(s); panicked != (c.Expr == nil) {
+		return mk("mustcompile-disagrees-with-compile", fmt.Sprintf("MustCompile panics = %v", c.Expr == nil), fmt.Sprintf("panicked = %v", panicked), "null")
+	}
 	// whatever the grammar says, the three entry points must agree on it: one-shot Search on an object document
 	// gives what Compile + Expression.Search gives
 	if one, two := core.Search(s, c04Docs[0].Raw), c.run(c04Docs[0].Raw); one.Key() != two.Key() && !(one.Kind == "ok" && two.Kind == "ok" && sortedEqual(one.Val, two.Val)) {
